@@ -212,6 +212,9 @@ func firstByte(ps *PrintState, node Node, precedence Priority) byte {
 		if ps.AllParens || prec < precedence {
 			return '('
 		}
+		if _, leftIsInt := n.Left.(*IntegerLiteral); leftIsInt && n.Type() == token.DOT {
+			return '(' // printed (1).x
+		}
 		return firstByte(ps, n.Left, prec)
 	case *PrefixExpression:
 		if ps.AllParens || PREFIX <= precedence {
